@@ -1,6 +1,7 @@
 package main
 
 import (
+	"encoding/json"
 	"flag"
 	"fmt"
 	"os"
@@ -14,81 +15,204 @@ import (
 	"golang.org/x/tools/go/ssa/ssautil"
 )
 
+// EntryResult is what one symbolic run of one harness entry produced (written as JSON for the driver).
+type EntryResult struct {
+	Entry        string            `json:"entry"`
+	Pkg          string            `json:"pkg"`
+	Restrict     string            `json:"restrict"`
+	Paths        int               `json:"paths"`
+	Forks        int               `json:"forks"`
+	Steps        int               `json:"steps"`
+	Asserts      int               `json:"asserts"`
+	AssertUnsat  int               `json:"assert_unsat"`
+	AssertSat    int               `json:"assert_sat"`
+	AssertTriv   int               `json:"assert_trivial"`
+	FeasQueries  int               `json:"feas_queries"`
+	Queries      int               `json:"solver_queries"`
+	Fallbacks    int               `json:"fallbacks"`
+	SolverS      float64           `json:"solver_s"`
+	WallS        float64           `json:"wall_s"`
+	LoadS        float64           `json:"load_s"`
+	Status       map[string]int    `json:"status"`
+	Reached      []string          `json:"reached"`
+	Unsupported  map[string]int    `json:"unsupported"`
+	Unwind       []string          `json:"unwind_failures"`
+	Blocked      []string          `json:"blocked"`
+	Functions    []string          `json:"functions"`
+	Models       []string          `json:"models"`
+	Samples      []Sample          `json:"samples"`
+	Violations   []ViolationReport `json:"violations"`
+	Cross        CrossStats        `json:"cross"`
+	QueryP50ms   float64           `json:"query_p50_ms"`
+	QueryP99ms   float64           `json:"query_p99_ms"`
+	QueryMaxms   float64           `json:"query_max_ms"`
+	UncaughtPanics []string        `json:"uncaught_panics"`
+}
+
+type Sample struct {
+	Entry   string         `json:"entry"`
+	Shape   map[string]int `json:"shape"`
+	Label   string         `json:"assert"`
+	Verdict string         `json:"verdict"`
+	Ms      float64        `json:"solver_ms"`
+	PCSize  int            `json:"path_condition_terms"`
+}
+
+type ViolationReport struct {
+	Label      string            `json:"label"`
+	Detail     string            `json:"detail"`
+	Shape      map[string]int    `json:"shape"`
+	Model      map[string]string `json:"model"`
+	Stack      []string          `json:"stack"`
+	Known      string            `json:"known"`
+	ReplayDir  string            `json:"replay_dir"`
+	Reproduced bool              `json:"reproduced"`
+	Replayed   bool              `json:"replayed"`
+	ReplayTail string            `json:"replay_tail"`
+}
+
+type CrossStats struct {
+	Checked   int `json:"checked"`
+	Agree     int `json:"agree"`
+	Disagree  int `json:"disagree"`
+	Unknown   int `json:"second_unknown"`
+}
+
+type stringList []string
+
+func (s *stringList) String() string     { return strings.Join(*s, ",") }
+func (s *stringList) Set(v string) error { *s = append(*s, v); return nil }
+
+var restrict = map[string]map[int]bool{}
+
+func parseRestrict(s string) {
+	for _, part := range strings.Split(s, ";") {
+		part = strings.TrimSpace(part)
+		if part == "" {
+			continue
+		}
+		kv := strings.SplitN(part, "=", 2)
+		set := map[int]bool{}
+		for _, v := range strings.Split(kv[1], ",") {
+			var n int
+			fmt.Sscanf(strings.TrimSpace(v), "%d", &n)
+			set[n] = true
+		}
+		restrict[strings.TrimSpace(kv[0])] = set
+	}
+}
+
 func main() {
 	repoMod := flag.String("mod", "/repo/node", "module dir")
 	pkgPat := flag.String("pkg", "./pkg/vaa", "package pattern")
-	harness := flag.String("harness", "", "harness file(s), comma separated")
+	harnessDir := flag.String("harnessdir", "", "directory with harness files for the package (all *.go overlaid)")
+	var harnessFiles stringList
+	flag.Var(&harnessFiles, "harness", "harness file (repeatable)")
 	entry := flag.String("entry", "", "entry function name(s), comma separated")
 	api := flag.String("api", "/verif/api/zzverif/api.go", "zzverif api file")
-	p2p := flag.String("p2pstrip", "", "stripped p2p.go")
 	unwind := flag.Int("unwind", 3000, "loop unwind bound")
 	steps := flag.Int("steps", 3000000, "per-path step budget")
 	forkLimit := flag.Int("forklimit", 300, "max symbolic make() length")
 	verbose := flag.Bool("v", false, "verbose")
 	z3bin := flag.String("z3", "z3", "solver binary")
-	doReplay := flag.Bool("replay", false, "replay counterexamples natively")
-	replace := flag.String("replace", "", "orig=new[,orig=new] source replacements (mutant testing)")
+	doReplay := flag.Bool("replay", true, "replay counterexamples natively")
+	var replaces stringList
+	flag.Var(&replaces, "replace", "orig=new source replacement (repeatable)")
+	outPath := flag.String("out", "", "write JSON result here")
+	workDir := flag.String("workdir", "/verif/.work/adhoc", "scratch directory for replays")
+	restrictS := flag.String("restrict", "", "restrict shape choices: name=v1,v2;name2=v")
+	knownPath := flag.String("known", "/verif/known_findings.json", "known findings file")
+	prop := flag.String("prop", "", "property id (for known findings)")
+	cross := flag.Int("cross", 0, "cross-check up to N assertion queries per entry on a second solver (-1 = all)")
+	maxReplay := flag.Int("maxreplay", 3, "max native replays per (label, known-id)")
+	stripP2P := flag.Bool("stripp2p", true, "overlay a copy of pkg/p2p/p2p.go whose Run body is stripped (quic-go does not build)")
+	pin := flag.String("pin", "", "concrete run: JSON file name->[values] pinning every nondet (translator validation)")
 	flag.Parse()
+	parseRestrict(*restrictS)
 
 	t0 := time.Now()
+	os.MkdirAll(*workDir, 0755)
 	pkgDir := filepath.Join(*repoMod, strings.TrimPrefix(*pkgPat, "./"))
 	overlay := map[string][]byte{}
-	b, err := os.ReadFile(*api)
-	if err != nil {
-		panic(err)
-	}
-	overlay[filepath.Join(*repoMod, "pkg/zzverif/api.go")] = b
-	native := map[string]string{filepath.Join(*repoMod, "pkg/zzverif/api.go"): *api}
-	for i, h := range strings.Split(*harness, ",") {
-		hb, err := os.ReadFile(h)
+	native := map[string]string{}
+	addOverlay := func(virtual, real string) {
+		b, err := os.ReadFile(real)
 		if err != nil {
-			panic(err)
+			fmt.Println("INCONCLUSIVE cannot read", real, err)
+			os.Exit(2)
 		}
-		overlay[filepath.Join(pkgDir, fmt.Sprintf("zz_verif_h%d.go", i))] = hb
-		abs, _ := filepath.Abs(h)
-		native[filepath.Join(pkgDir, fmt.Sprintf("zz_verif_h%d.go", i))] = abs
+		overlay[virtual] = b
+		abs, _ := filepath.Abs(real)
+		native[virtual] = abs
 	}
-	if *p2p != "" {
-		pb, _ := os.ReadFile(*p2p)
-		overlay["/repo/node/pkg/p2p/p2p.go"] = pb
-		native["/repo/node/pkg/p2p/p2p.go"] = *p2p
+	addOverlay(filepath.Join(*repoMod, "pkg/zzverif/api.go"), *api)
+	if *harnessDir != "" {
+		fs, _ := filepath.Glob(filepath.Join(*harnessDir, "*.go"))
+		sort.Strings(fs)
+		for _, h := range fs {
+			harnessFiles = append(harnessFiles, h)
+		}
 	}
-	if *replace != "" {
-		for _, r := range strings.Split(*replace, ",") {
-			kv := strings.SplitN(r, "=", 2)
-			rb, err := os.ReadFile(kv[1])
-			if err != nil {
-				panic(err)
+	for _, h := range harnessFiles {
+		addOverlay(filepath.Join(pkgDir, "zz_verif_"+filepath.Base(h)), h)
+	}
+	if *stripP2P && strings.HasSuffix(filepath.Clean(*repoMod), "/node") {
+		p2pSrc := filepath.Join(*repoMod, "pkg/p2p/p2p.go")
+		if _, err := os.Stat(p2pSrc); err == nil {
+			out := filepath.Join(*workDir, "p2p_stripped.go")
+			if err := stripRun(p2pSrc, out); err != nil {
+				fmt.Println("INCONCLUSIVE cannot strip p2p.Run:", err)
+				os.Exit(2)
 			}
-			overlay[kv[0]] = rb
-			native[kv[0]] = kv[1]
+			addOverlay(p2pSrc, out)
 		}
+	}
+	for _, r := range replaces {
+		kv := strings.SplitN(r, "=", 2)
+		addOverlay(kv[0], kv[1])
 	}
 	cfg := &packages.Config{Mode: packages.LoadAllSyntax, Dir: *repoMod, Overlay: overlay,
-		Env: append(os.Environ(), "GOFLAGS=-mod=mod", "GOPROXY=off", "GOSUMDB=off")}
+		Env: append(os.Environ(), "GOFLAGS=-mod=mod", "GOPROXY=off", "GOSUMDB=off", "GOTOOLCHAIN=local")}
 	pkgs, err := packages.Load(cfg, *pkgPat)
 	if err != nil {
-		panic(err)
+		fmt.Println("INCONCLUSIVE load:", err)
+		os.Exit(2)
 	}
 	nerr := 0
 	packages.Visit(pkgs, nil, func(p *packages.Package) {
 		for _, e := range p.Errors {
 			nerr++
-			if nerr < 8 {
+			if nerr < 12 {
 				fmt.Println("LOAD ERROR", p.PkgPath, e)
 			}
 		}
 	})
+	if nerr > 0 {
+		fmt.Println("INCONCLUSIVE harness-does-not-build")
+		os.Exit(2)
+	}
 	prog, spkgs := ssautil.AllPackages(pkgs, ssa.InstantiateGenerics)
 	root := spkgs[0]
 	root.Build()
-	fmt.Printf("loaded %s in %.1fs (errors=%d)\n", *pkgPat, time.Since(t0).Seconds(), nerr)
+	loadS := time.Since(t0).Seconds()
+	fmt.Printf("loaded %s in %.1fs\n", *pkgPat, loadS)
+
+	known := loadKnown(*knownPath, *prop)
+	var pinned map[string][]uint64
+	if *pin != "" {
+		b, err := os.ReadFile(*pin)
+		if err != nil {
+			panic(err)
+		}
+		json.Unmarshal(b, &pinned)
+	}
 
 	exit := 0
+	var results []*EntryResult
 	for _, en := range strings.Split(*entry, ",") {
 		fn := root.Func(en)
 		if fn == nil {
-			fmt.Println("entry not found:", en)
+			fmt.Println("INCONCLUSIVE entry not found:", en)
 			os.Exit(2)
 		}
 		solver, err := NewSolver(*z3bin, 60000)
@@ -97,38 +221,64 @@ func main() {
 		}
 		e := &Engine{prog: prog, solver: solver, cfg: Config{MaxUnwind: *unwind, MaxSteps: *steps, ForkLimit: *forkLimit, Verbose: *verbose},
 			reached: map[string]bool{}, unsupported: map[string]int{}, funcsSeen: map[string]bool{}, modelsUsed: map[string]bool{}}
+		e.entryName = en
+		e.pinned = pinned
+		for _, k := range known {
+			if k.Entry == "" || k.Entry == en {
+				e.known = append(e.known, k)
+			}
+		}
+		e.crossBudget = *cross
 		t1 := time.Now()
 		e.Run(fn)
 		wall := time.Since(t1)
-		fmt.Printf("== %s: paths=%d forks=%d steps=%d asserts=%d (unsat=%d sat=%d) feas-queries=%d solver-queries=%d fallbacks=%d restarts=%d solver=%.2fs wall=%.2fs\n",
-			en, e.stats.paths, e.stats.forks, e.stats.steps, e.stats.asserts, e.stats.assertUnsat, e.stats.assertSat, e.stats.feas, solver.Queries, solver.Fallbacks, solver.Restarts, solver.Time.Seconds(), wall.Seconds())
-		fmt.Printf("   status: %v  reached: %v\n", e.stats.byStatus, keys(e.reached))
-		{
-			ds := append([]time.Duration(nil), solver.Durs...)
-			sort.Slice(ds, func(i, j int) bool { return ds[i] < ds[j] })
-			if n := len(ds); n > 0 {
-				var top time.Duration
-				for _, d := range ds[n-n/20:] {
-					top += d
-				}
-				fmt.Printf("   query time: p50=%v p90=%v p99=%v max=%v; slowest 5%% take %.1fs of %.1fs\n", ds[n/2], ds[n*9/10], ds[n*99/100], ds[n-1], top.Seconds(), solver.Time.Seconds())
-			}
+		res := &EntryResult{Entry: en, Pkg: *pkgPat, Restrict: *restrictS, Paths: e.stats.paths, Forks: e.stats.forks, Steps: e.stats.steps,
+			Asserts: e.stats.asserts, AssertUnsat: e.stats.assertUnsat, AssertSat: e.stats.assertSat, AssertTriv: e.stats.assertTrivial, FeasQueries: e.stats.feas,
+			Queries: solver.Queries, Fallbacks: solver.Fallbacks, SolverS: solver.Time.Seconds(), WallS: wall.Seconds(), LoadS: loadS,
+			Status: map[string]int{}, Unsupported: e.unsupported, Reached: keys(e.reached), Functions: keys(e.funcsSeen), Models: keys(e.modelsUsed),
+			Samples: e.samples, Cross: e.cross}
+		for s, n := range e.stats.byStatus {
+			res.Status[statusName(s)] = n
 		}
+		ds := append([]time.Duration(nil), solver.Durs...)
+		sort.Slice(ds, func(i, j int) bool { return ds[i] < ds[j] })
+		if n := len(ds); n > 0 {
+			res.QueryP50ms = float64(ds[n/2].Microseconds()) / 1000
+			res.QueryP99ms = float64(ds[n*99/100].Microseconds()) / 1000
+			res.QueryMaxms = float64(ds[n-1].Microseconds()) / 1000
+		}
+		fmt.Printf("== %s [%s]: paths=%d forks=%d steps=%d asserts=%d (unsat=%d trivial=%d sat=%d) feas=%d queries=%d fallbacks=%d solver=%.2fs wall=%.2fs\n",
+			en, *restrictS, e.stats.paths, e.stats.forks, e.stats.steps, e.stats.asserts, e.stats.assertUnsat, e.stats.assertTrivial, e.stats.assertSat, e.stats.feas, solver.Queries, solver.Fallbacks, solver.Time.Seconds(), wall.Seconds())
+		fmt.Printf("   status: %v  reached: %v\n", res.Status, res.Reached)
 		if len(e.unsupported) > 0 {
-			fmt.Println("   UNSUPPORTED:")
+			fmt.Println("   UNSUPPORTED / INCONCLUSIVE:")
 			for k, v := range e.unsupported {
 				fmt.Printf("     %dx %s\n", v, k)
 			}
-			exit = 2
+			exit = max(exit, 2)
 		}
 		for _, st := range e.done {
-			if st.status == UnwindExceeded || st.status == Panicked {
-				fmt.Printf("   path %d status=%d note=%s\n", st.id, st.status, st.note)
-				if st.panicv != nil {
-					for _, l := range st.panicv.Stack {
-						fmt.Println("        ", l)
+			switch st.status {
+			case UnwindExceeded:
+				res.Unwind = append(res.Unwind, st.note)
+				fmt.Printf("   path %d UNWIND %s\n", st.id, st.note)
+				exit = max(exit, 2)
+			case Panicked:
+				msg := st.note
+				if st.panicv != nil && len(st.panicv.Stack) > 0 {
+					msg += " @ " + st.panicv.Stack[0]
+				}
+				res.UncaughtPanics = append(res.UncaughtPanics, msg)
+				if len(res.UncaughtPanics) <= 5 {
+					fmt.Printf("   path %d uncaught panic (outside NoPanic): %s\n", st.id, msg)
+					if *verbose && st.panicv != nil {
+						for _, l := range st.panicv.Stack {
+							fmt.Println("        ", l)
+						}
 					}
 				}
+			case Blocked:
+				res.Blocked = append(res.Blocked, st.note)
 			}
 		}
 		if *verbose || os.Getenv("SYMGO_BRANCHSTAT") != "" {
@@ -147,50 +297,85 @@ func main() {
 				}
 			}
 		}
-		seen := map[string]bool{}
+		// violations: dedupe, replay
+		seen := map[string]int{}
 		for _, v := range e.violations {
-			shape := []string{}
+			shape := map[string]int{}
+			var shapeS []string
 			for _, nd := range v.State.nondet {
 				if nd.Kind == "shape" {
-					shape = append(shape, fmt.Sprintf("%s=%d", nd.Name, nd.Shape))
+					shape[nd.Name] = nd.Shape
+					shapeS = append(shapeS, fmt.Sprintf("%s=%d", nd.Name, nd.Shape))
 				}
 			}
-			key := v.Label + strings.Join(shape, ",")
-			if seen[key] {
-				continue
-			}
-			seen[key] = true
-			fmt.Printf("   VIOLATION label=%s shape=%v detail=%s\n", v.Label, shape, v.Detail)
-			var ms []string
+			key := v.Label + "|" + v.Known + "|" + v.Detail
+			seen[key]++
+			vr := ViolationReport{Label: v.Label, Detail: v.Detail, Shape: shape, Stack: v.Stack, Known: v.Known, Model: map[string]string{}}
 			for _, nd := range v.State.nondet {
 				if nd.Term != nil && v.Model != nil {
-					if val, ok := v.Model[nd.Term.name]; ok {
-						ms = append(ms, fmt.Sprintf("%s=%s", nd.Term.name, val))
+					if val, ok := v.Model[nd.Term.name]; ok && len(vr.Model) < 64 {
+						vr.Model[nd.Term.name] = val.String()
 					}
 				}
 			}
-			if len(ms) > 12 {
-				ms = ms[:12]
-			}
-			fmt.Printf("      model: %s\n", strings.Join(ms, " "))
-			exit = 1
-			if *doReplay {
-				dir := fmt.Sprintf("/root/symgo-spike/work/%s-%d", en, len(seen))
+			if seen[key] <= *maxReplay && *doReplay {
+				dir := filepath.Join(*workDir, fmt.Sprintf("replay-%s-%d", en, len(res.Violations)))
 				ok, tail := replay(v, dir, *repoMod, *pkgPat, root.Pkg.Name(), en, native)
-				fmt.Printf("      replay: reproduced=%v dir=%s\n", ok, dir)
-				if !ok {
-					fmt.Println(tail)
+				vr.Replayed, vr.Reproduced, vr.ReplayDir, vr.ReplayTail = true, ok, dir, tail
+			}
+			kind := "VIOLATION-CANDIDATE"
+			if v.Known != "" {
+				kind = "KNOWN-CANDIDATE"
+			}
+			if seen[key] <= 3 {
+				fmt.Printf("   %s label=%s known=%q shape=%v detail=%s replayed=%v reproduced=%v dir=%s\n", kind, v.Label, v.Known, shapeS, v.Detail, vr.Replayed, vr.Reproduced, vr.ReplayDir)
+				if vr.Replayed && !vr.Reproduced {
+					fmt.Println(vr.ReplayTail)
 				}
 			}
+			res.Violations = append(res.Violations, vr)
+			if v.Known == "" {
+				exit = max(exit, 1)
+			}
 		}
-		fmt.Printf("   functions executed: %d, models used: %v\n", len(e.funcsSeen), keys(e.modelsUsed))
+		fmt.Printf("   functions executed: %d, models used: %d\n", len(e.funcsSeen), len(e.modelsUsed))
 		solver.Close()
+		if e.second != nil {
+			e.second.Close()
+		}
+		results = append(results, res)
+	}
+	if *outPath != "" {
+		b, _ := json.MarshalIndent(results, "", " ")
+		os.WriteFile(*outPath, b, 0644)
 	}
 	os.Exit(exit)
 }
 
+func statusName(s Status) string {
+	switch s {
+	case Running:
+		return "running"
+	case Finished:
+		return "finished"
+	case Panicked:
+		return "panicked"
+	case Infeasible:
+		return "infeasible"
+	case Unsupported:
+		return "unsupported"
+	case UnwindExceeded:
+		return "unwind"
+	case Violated:
+		return "violated"
+	case Blocked:
+		return "blocked"
+	}
+	return fmt.Sprint(int(s))
+}
+
 func keys(m map[string]bool) []string {
-	var ks []string
+	ks := []string{}
 	for k := range m {
 		ks = append(ks, k)
 	}
